@@ -339,6 +339,14 @@ var topRules = []topRule{
 	{name: "impl-wrong-return", good: implGood, bad: strings.Replace(implGood, "-> bool { true }", "-> int { 1 }", 1)},
 	{name: "impl-unknown-capability", good: implGood, bad: strings.Replace(implGood, "with { light }", "with { nope }", 1)},
 	{name: "impl-conflicting-capabilities", good: implGood, bad: strings.Replace(strings.Replace(implGood, "with { light }", "with { light, temperature }", 1), "fn dim(s: $Lamp, percent: int) -> bool { true }", "fn dim(s: $Lamp, percent: int) -> bool { true }\n    fn set_temp(s: $Lamp, celsius: float) {}", 1)},
+	// a method that belongs to a capability which the block did NOT select is an extra method like any other
+	{name: "impl-method-of-unselected-capability", good: implGood, bad: strings.Replace(implGood, "fn dim(s: $Lamp, percent: int) -> bool { true }", "fn dim(s: $Lamp, percent: int) -> bool { true }\n    fn set_temp(s: $Lamp, celsius: float) {}", 1)},
+	{name: "impl-method-of-unselected-capability-mistyped", good: implGood, bad: strings.Replace(implGood, "fn dim(s: $Lamp, percent: int) -> bool { true }", "fn dim(s: $Lamp, percent: int) -> bool { true }\n    fn set_temp(s: $Lamp, celsius: str) -> int { 1 }", 1)},
+	{name: "impl-other-capability", good: strings.Replace(strings.Replace(implGood, "with { light }", "with { temperature }", 1), "fn dim(s: $Lamp, percent: int) -> bool { true }", "fn set_temp(s: $Lamp, celsius: float) {}", 1),
+		bad: strings.Replace(implGood, "with { light }", "with { temperature }", 1)},
+	{name: "impl-too-few-parameters", good: implGood, bad: strings.Replace(implGood, "fn dim(s: $Lamp, percent: int)", "fn dim(s: $Lamp)", 1)},
+	{name: "impl-too-many-parameters", good: implGood, bad: strings.Replace(implGood, "fn dim(s: $Lamp, percent: int)", "fn dim(s: $Lamp, percent: int, more: int)", 1)},
+	{name: "impl-parameter-name", good: implGood, bad: strings.Replace(implGood, "percent: int", "pct: int", 1)},
 	{name: "impl-unknown-template", good: implGood, bad: strings.Replace(implGood, "impl FooFeature", "impl NopeFeature", 1)},
 	{name: "impl-no-singleton-extraction", good: implGood, bad: strings.Replace(implGood, "fn dim(s: $Lamp, percent: int)", "fn dim(percent: int)", 1)},
 	{name: "import-unknown-module", good: "import assert_eq from testing;\nfn main() { assert_eq(1, 1); }\n", bad: "import x from nowhere;\nfn main() { println(1); }\n"},
